@@ -225,7 +225,14 @@ def check(tier):
             rep.failure("reader", {"reader"}, {"half_size": n, "file": "".join(chr(c) for c in fl), "ops": "".join(ops), "observed": obs})
 
     # (b) layouts: the same tokens in another layout give the same derived specification
-    base_specs = [S.gen_wellformed(rng, collide=0.0) for _ in range(12 if tier == "quick" else 150)]
+    # directive lines whose handles are NAMED tokens, with and without the optional semicolons, followed by token definitions: where a
+    # line breaks must not decide whether the next TOKEN is one more handle or a new declaration (accepted and rejected ones alike)
+    directive_specs = ['grammar g;\n@left PLUS MINUS;\nPLUS = "+";\nMINUS = "-";\nstart = start PLUS start | start MINUS start | "x";\n',
+                       'grammar g\n@left PLUS MINUS\nstart = start PLUS start | start MINUS start | "x";\nPLUS = "+"\nMINUS = "-"\n',
+                       'grammar g @left PLUS NUM = "n"; PLUS = "+"; start = PLUS NUM;\n',
+                       'grammar g; @none ID NUM @left PLUS; ID = $ID; NUM = /[0-9]+/; PLUS = "+"; start = ID PLUS NUM;\n',
+                       'grammar g\n@right POW\n@left TIMES DIV\nPOW = "^" TIMES = "*" DIV = "/"\nstart = start POW start | start TIMES start | start DIV start | "n"\n']
+    base_specs = directive_specs + directive_specs + [S.gen_wellformed(rng, collide=0.0) for _ in range(12 if tier == "quick" else 150)]
     lcases, layout_bad, nlay = [], [], 0
     layout_pos_bad = []
     for sp in base_specs:
